@@ -62,7 +62,7 @@ Muts == {"none", "nocSigBit", "icaSigBit", "rootSigBit", "nocIssuerName", "icaIs
          "icaNotCA", "icaNoCertSign", "rootNotCA", "rootNoCertSign", "rootPathLen0", "icaPathLen1",
          "nocCritExt", "icaCritExt", "nocNoNodeId", "nocNoFabricId", "nocOtherFabric", "icaOtherFabric",
          "rootInIcaSlot", "untrustedRoot", "swapNocIca", "nocAsAuthority", "icaRepeated",
-         "nocKeyNotCsr", "fabricExists"}
+         "nocKeyNotCsr", "fabricExists", "fabricExistsReissuedRoot"}
 NeedsIca == {"icaSigBit", "icaIssuerName", "icaAkid", "icaExpired", "icaNotYet", "icaNotCA", "icaNoCertSign", "icaPathLen1",
              "icaCritExt", "icaOtherFabric", "rootInIcaSlot", "swapNocIca", "icaRepeated", "rootPathLen0"}
 Apply(ch, m) ==
@@ -107,6 +107,7 @@ Apply(ch, m) ==
     [] m = "icaRepeated" -> <<ch[1], ch[2], ch[2]>>                                   \* the chain does not reach a root
     [] m = "nocKeyNotCsr" -> ch                                                        \* context mutation, see Ctx
     [] m = "fabricExists" -> ch
+    [] m = "fabricExistsReissuedRoot" -> ch       \* the fabric exists with a re-issued root (same key and names, other serial)
     [] OTHER -> ch
 
 \* CASE transmits NOC and ICAC only (the root is the fabric's own); the bare verifier has no notion of "intermediate"
@@ -122,7 +123,7 @@ Case(shape, m1, m2, reliable, purpose) ==
               fabricId |-> IF purpose = "addnoc" THEN ch[1].fabricId ELSE FAB,
               trustedRoot |-> IF purpose = "addnoc" THEN ch[Len(ch)].key ELSE KRoot,
               csrKey |-> IF "nocKeyNotCsr" \in {m1, m2} THEN KOther ELSE KNoc,
-              fabricExists |-> "fabricExists" \in {m1, m2}]
+              fabricExists |-> {"fabricExists", "fabricExistsReissuedRoot"} \cap {m1, m2} # {}]
   IN [shape |-> shape, m1 |-> m1, m2 |-> m2, reliable |-> reliable, purpose |-> purpose, valid |-> Valid(ch, ctx)]
 
 \* single mutations exhaustively; pairs only of mutations touching different certificates / aspects (second one from a short list)
@@ -132,7 +133,7 @@ Init == /\ n = 0
         /\ \E shape \in {2, 3}, m1 \in Muts, m2 \in Second, r \in BOOLEAN, p \in Purposes :
              /\ Applicable(shape, m1, p) /\ Applicable(shape, m2, p)
              /\ (m2 # "none" => m1 # m2 /\ m1 \notin Structural /\ m2 \notin Structural /\ m1 # "none")
-             /\ (m1 \in {"nocKeyNotCsr", "fabricExists"} => p = "addnoc")
+             /\ (m1 \in {"nocKeyNotCsr", "fabricExists", "fabricExistsReissuedRoot"} => p = "addnoc")
              /\ case = Case(shape, m1, m2, r, p)
 Next == n = 0 /\ n' = 1 /\ UNCHANGED case
 Spec == Init /\ [][Next]_<<case, n>>
